@@ -857,13 +857,15 @@ package erpc
 //@   ensures[ok-only-if-no-veto] @C04 old(c.callCmd) != nil && statOK(old(c.callCmd).stat) ==> ghost.vetoed == old(ghost.vetoed)
 
 // closing the session is requested by starting Close on its own goroutine
+//@ ghost global sessionCloses int
 //@ func (*session).Close
 //@   property C07
 //@   flags libframe frame-unchecked
 //@   spawnset ghost.closeRequests = old(ghost.closeRequests) + 1
+//@   ghostset ghost.sessionCloses = old(ghost.sessionCloses) + 1
 //@   requires? @C07 sessShape(s) && s.peer.sessHub != nil && s.peer.sessHub.sessions != nil
 //@   requires?[notify-flag-tracks-channel] @C07 (s.didCloseNotify == 0 <==> !chanClosed(s.closeNotifyCh)) && (s.didCloseNotify == 0 || s.didCloseNotify == 1)
-//@   modifies allof(type(session)), allof(type(socket.socket)), lockset, waitgroups, channels, mapviews
+//@   modifies allof(type(session)), allof(type(socket.socket)), lockset, waitgroups, channels, mapviews, ghost.sessionCloses, ghost.postDisconnectRuns
 //@   ensures[index-only-own-entry] @C07 forall h *SessionHub, k iface :: {h.sessions.#gkeys[k]} old(h.sessions.#gvals[k]) != iface(type(*session), s) ==> h.sessions.#gkeys[k] == old(h.sessions.#gkeys[k]) && h.sessions.#gvals[k] == old(h.sessions.#gvals[k])
 
 //@ func (*session).startReadAndHandle
@@ -944,6 +946,26 @@ package erpc
 //@   requires?[session-wellformed] sh.sessions != nil && sess != nil && sessShape(sess) && sess.peer.sessHub == sh
 //@   modifies allof(type(session)), allof(type(socket.socket)), lockset, waitgroups, channels, mapviews
 //@   ensures[indexed-under-current-id] hubHas(sh, old(sessID(sess)), sess)
+
+// a connection rejected by an accept hook is closed as a SESSION (so that an index
+// entry a hook created with SetID is removed and the disconnect hook runs), not
+// just as a raw connection
+//@ trusted AnywayGo
+//@   flags libframe spawns
+//@   modifies ghost.handleScheduled
+//@ trusted newSession
+//@   flags libframe
+//@   ensures result != nil
+//@ trusted (*pluginSingleContainer).postAccept
+//@   flags libframe
+//@   modifies allof(type(session)), allof(type(socket.socket)), lockset, mapviews
+//@ func (*peer).ServeConn
+//@   property C07
+//@   flags libframe frame-unchecked
+//@   requires p.pluginContainer != nil && p.sessHub != nil
+//@   modifies allof(type(session)), allof(type(socket.socket)), lockset, waitgroups, channels, mapviews, ghost.sessionCloses, ghost.postDisconnectRuns, ghost.handleScheduled
+//@   ensures[rejected-connection-closed-as-session] !statOK(result.1) && statCode(result.1) != CodeWrongConn ==> ghost.sessionCloses == old(ghost.sessionCloses) + 1
+//@   ensures[accepted-session-returned] statOK(result.1) ==> result.0 != nil
 
 // ---- logging: output only (keeps verification conditions small) ------------------
 //@ trusted Printf
